@@ -36,7 +36,11 @@ def vkey(v):
     if isinstance(v, datetime.datetime):
         if v.tzinfo is None:
             return ("dtn", v.isoformat())
-        return ("dta", v.astimezone(datetime.timezone.utc).isoformat())
+        # the instant in integer microseconds (astimezone() overflows for years 1 and 9999)
+        off = v.utcoffset()
+        us = ((v.toordinal() * 86400 + v.hour * 3600 + v.minute * 60 + v.second) * 1000000 + v.microsecond
+              - (off.days * 86400 + off.seconds) * 1000000 - off.microseconds)
+        return ("dta", us)
     if isinstance(v, QualifiedName):
         return ("qn", v.uri)
     if isinstance(v, Identifier):
